@@ -109,6 +109,8 @@ func c13Strings(c *Ctx) []string {
 		"2020-01-01T10:30:00+0530", "2020-01-01T10:30:00+05", "2020-01-01T10:30:00.000Z", "2020-01-01T10:30:00.000+05:30", "2020-01-01T10:30:00.5Z", "2020-01-01T10:30:00.123456+05:30", "2020-01-01T10:30Z", "2020-01-01T10:30+05:30", "2020-01-01T10Z", "2020-01-01T10+05:30",
 		"2020-01-01T10:30:00 Z", "2020-01-01 10:30:00", "2020-01-01t10:30:00", "2020-02-30T10:30:00Z", "2020-01-01T10:30:00Zx",
 		"24:00", "23:59", "23:59:59", "23:59:59.999", "23:59:59.9999", "23:59:60", "00:00:00.000", "5:04", "10", "1", "10:5", "T10:00", "@T10:00", "@T10", "TT10", "@10:30", "T@T10:30:00.000", "@@T10", "T10:30:00", "@T@T10", "@2020-01-01T10:30:00Z", "@@2020", "T2020", "@T2020-01-01", "10:00:00,5", "10:00:00.+12", "10:00Z", "10:00:00+01:00",
+		// integer texts longer than the longest int32 text (leading zeros), characters that only Unicode case folding maps to ASCII letters
+		"000000000042", "+00000000042", "-000000000007", "00000000000000000001", "0000000000000", "-00000000000", "+2147483647", "+02147483647", "-02147483648", "yeſ", "falſe", "ſ", "noſ", "YEſ", "\u212a", "truе",
 		"5 'mg'", "5 mg", "5mg", "5'mg'", "5  'mg'", "5\t'mg'", "5 \n'mg'",
 		// white space that starts with a tab / newline / form feed / carriage return and goes on with a blank; no white space
 		// before a quoted unit that contains a blank
@@ -268,6 +270,15 @@ func runC13(c *Ctx) {
 			good := o.Err == nil && len(o.Coll) == 1 && o.Coll[0] == system.Boolean(want) && o2.Err == nil && len(o2.Coll) == 1 && o2.Coll[0] == system.Boolean(true)
 			c.Law(good, "C13/boolean-spellings", "the Boolean spellings true/t/yes/y/1/1.0 and false/f/no/n/0/0.0 convert in every letter case", fmt.Sprintf("%q", v), canonOutcome(o, nil)+" / convertsToBoolean "+canonOutcome(o2, nil))
 		}
+	}
+	// strings that are NOT one of the twelve spellings, however a case-insensitive comparison is done (Unicode simple
+	// folding maps U+017F to 's' and U+212A to 'k'; full-width and Cyrillic look-alikes; blanks)
+	for _, v := range []string{"yeſ", "falſe", "YEſ", "FALſE", "ｔｒｕｅ", "truе", "уes", " yes", "no ", "tr ue", "ye", "fals", "tru", "10", "1.00", "0.00", "01", "+1", "-0", "yes\n", "İ", "\u212a"} {
+		o := safeEval(func() (system.Collection, error) { return toB.Evaluate(nil, envVar("x", system.String(v))) })
+		o2 := safeEval(func() (system.Collection, error) { return cvB.Evaluate(nil, envVar("x", system.String(v))) })
+		c.Observe("boolean near miss "+v, true)
+		good := o.Err == nil && len(o.Coll) == 0 && o2.Err == nil && len(o2.Coll) == 1 && o2.Coll[0] == system.Boolean(false)
+		c.Law(good, "C13/boolean-spellings", "only the twelve Boolean spellings (ASCII letters, any case) convert to a Boolean", fmt.Sprintf("%q", v), canonOutcome(o, nil)+" / convertsToBoolean "+canonOutcome(o2, nil))
 	}
 	// elements
 	mk := func(y, mo, d, h, mi, s, us int, tz string) time.Time { return timeDate(y, mo, d, h, mi, s, us, tz) }
